@@ -31,6 +31,7 @@ pub fn braille_mathml(mathml: Element, nav_node_id: &str) -> Result<(String, usi
                         .chain_err(|| "Pattern match/replacement failure!")?;
         // debug!("braille_mathml: braille string: {}", &braille_string);
         let braille_string = braille_string.replace(' ', "");
+        let nav_node_found = rules_with_context.nav_node_found();
         #[cfg(mathcat_verif)]
         let verif_raw = braille_string.clone();
         let pref_manager = rules_with_context.get_rules().pref_manager.borrow();
@@ -51,7 +52,9 @@ pub fn braille_mathml(mathml: Element, nav_node_id: &str) -> Result<(String, usi
         #[cfg(mathcat_verif)]
         verif_log_braille(&verif_raw, &braille);
         return Ok(
-            if highlight_style != "Off" {
+            // only a node that was met has marks; without one, a cell that has dots 7 & 8 by itself (the row separator ⣍ of the Nemeth and
+            // Vietnam matrix layouts) must not be taken for the ends of a marked range
+            if highlight_style != "Off" && nav_node_found {
                 highlight_braille_chars(braille, &braille_code, highlight_style == "All")
             } else {
                 let end = braille.chars().count();
